@@ -261,16 +261,31 @@ func (n *node) putDoc(doc did.Document, at time.Time) error {
 
 var didCounter int
 
+// Every generated DID ends in a terminator so that cutting the last character ("shorter" attacker DID, a proper textual
+// prefix) can never produce the DID of another party.
 func newDIDName(method, label string) string {
 	didCounter++
 	switch method {
 	case "nuts":
 		sum := sha256.Sum256([]byte(fmt.Sprintf("%s-%d-%d", label, didCounter, time.Now().UnixNano())))
-		return "did:nuts:" + hex.EncodeToString(sum[:16])
+		return "did:nuts:" + hex.EncodeToString(sum[:16]) + "z"
 	case "web":
-		return fmt.Sprintf("did:web:verif.example:iam:%s-%d", label, didCounter)
+		return fmt.Sprintf("did:web:verif.example:iam:%s-%dz", label, didCounter)
 	}
 	panic("method " + method)
+}
+
+// relatedDID derives the DID of an attacker whose identifier is textually related to the DID he poses as.
+func relatedDID(base string, rel string) string {
+	switch rel {
+	case "host-suffix": // base is a proper prefix (for a host-only did:web this is another domain: example.com.evil.org)
+		return base + ".evil.org"
+	case "sub-path": // base is a proper prefix (for did:web a sub-path DID on the same host)
+		return base + ":users:x"
+	case "shorter": // the attacker's DID is a proper prefix of base
+		return base[:len(base)-1]
+	}
+	panic("relation " + rel)
 }
 
 // newKey creates a private key in the producer's key store under the given kid.
